@@ -18,3 +18,87 @@ Proof.
   intros Hn H11. unfold cubic, cub_a, cub_b, cub_c, cub_d, minhap. rewrite H11.
   apply cubic_root_gen. exact Hn.
 Qed.
+
+(* marginal haplotype counts of the 2x2 table (n11 = 0) *)
+Definition hm_c0 (t : tab) : Q := 2 * n00 t + n01 t + n10 t + (n01 t + 2 * n02 t + n12 t).   (* candidate allele 0 *)
+Definition hm_c1 (t : tab) : Q := n10 t + 2 * n20 t + n21 t + (n12 t + n21 t + 2 * n22 t).   (* candidate allele 1 *)
+Definition hm_i0 (t : tab) : Q := 2 * n00 t + n01 t + n10 t + (n10 t + 2 * n20 t + n21 t).   (* index allele 0 *)
+Definition hm_i1 (t : tab) : Q := n01 t + 2 * n02 t + n12 t + (n12 t + n21 t + 2 * n22 t).   (* index allele 1 *)
+
+Lemma exact_r2_hap t :
+  ~ t_n t == 0 -> n11 t == 0 ->
+  ~ hm_c0 t == 0 -> ~ hm_c1 t == 0 -> ~ hm_i0 t == 0 -> ~ hm_i1 t == 0 ->
+  exact_r2 (t_p t) (t_q t) (minhap t) == hap_r2 t.
+Proof.
+  intros Hn H11 C0 C1 I0 I1.
+  unfold exact_r2, exact_D, hap_r2, minhap, num_alt, t_p, t_q. unfold t_n, hm_c0, hm_c1, hm_i0, hm_i1 in *.
+  destruct t as [a00 a01 a02 a10 a11 a12 a20 a21 a22]. cbn [n00 n01 n02 n10 n11 n12 n20 n21 n22] in *.
+  rewrite H11. field.
+  repeat split; try assumption.
+  intro K. apply Hn. lra.
+Qed.
+
+(* ---- range ------------------------------------------------------------------- *)
+
+Lemma freq_cs (a b c d : Q) : 0 <= a -> 0 <= b -> 0 <= c -> 0 <= d ->
+  (a * d - b * c) * (a * d - b * c) <= (a + b) * (c + d) * (a + c) * (b + d).
+Proof.
+  intros Ha Hb Hc Hd.
+  assert (0 <= a * b) by (apply Qmult_le_0_compat; assumption).
+  assert (0 <= a * c) by (apply Qmult_le_0_compat; assumption).
+  assert (0 <= a * d) by (apply Qmult_le_0_compat; assumption).
+  assert (0 <= b * c) by (apply Qmult_le_0_compat; assumption).
+  assert (0 <= b * d) by (apply Qmult_le_0_compat; assumption).
+  assert (0 <= c * d) by (apply Qmult_le_0_compat; assumption).
+  nra.
+Qed.
+
+Lemma exact_r2_range_freq p q f :
+  0 <= f -> f <= p -> f <= q -> 0 <= 1 - p - q + f -> 0 < p * (1 - p) * q * (1 - q) ->
+  0 <= exact_r2 p q f <= 1.
+Proof.
+  intros Ha Hb Hc Hd Hden.
+  pose proof (freq_cs f (p - f) (q - f) (1 - p - q + f)) as CS.
+  assert (0 <= p - f) as Hb' by lra. assert (0 <= q - f) as Hc' by lra.
+  specialize (CS Ha Hb' Hc' Hd).
+  assert (exact_D p q f == f * (1 - p - q + f) - (p - f) * (q - f)) as ED by (unfold exact_D; ring).
+  assert ((f + (p - f)) * (q - f + (1 - p - q + f)) * (f + (q - f)) * (p - f + (1 - p - q + f))
+          == p * (1 - p) * q * (1 - q)) as EDen by ring.
+  rewrite EDen, <- ED in CS.
+  unfold exact_r2. split.
+  - apply Qle_shift_div_l; [exact Hden|]. rewrite Qmult_0_l.
+    assert (0 <= exact_D p q f * exact_D p q f) by nra. assumption.
+  - apply Qle_shift_div_r; [exact Hden|]. rewrite Qmult_1_l. exact CS.
+Qed.
+
+Definition tab_nonneg (t : tab) : Prop :=
+  0 <= n00 t /\ 0 <= n01 t /\ 0 <= n02 t /\ 0 <= n10 t /\ 0 <= n11 t /\ 0 <= n12 t /\
+  0 <= n20 t /\ 0 <= n21 t /\ 0 <= n22 t.
+
+Lemma div_nonneg x y : 0 <= x -> 0 < y -> 0 <= x / y.
+Proof. intros Hx Hy. apply Qle_shift_div_l; [exact Hy|]. rewrite Qmult_0_l. exact Hx. Qed.
+
+(* for every f00 in the admissible interval [minhap, maxhap] the r^2 formula is in [0,1] *)
+Lemma exact_r2_range_tab t f :
+  tab_nonneg t -> 0 < t_n t ->
+  0 < t_p t * (1 - t_p t) * t_q t * (1 - t_q t) ->
+  minhap t <= f <= maxhap t ->
+  0 <= exact_r2 (t_p t) (t_q t) f <= 1.
+Proof.
+  intros (P00 & P01 & P02 & P10 & P11 & P12 & P20 & P21 & P22) Hn Hden [Hlo Hhi].
+  assert (0 < 2 * t_n t) as H2n by lra.
+  assert (~ t_n t == 0) as Hn0 by lra.
+  apply exact_r2_range_freq; try exact Hden.
+  - apply Qle_trans with (minhap t); [|exact Hlo]. unfold minhap, num_alt. apply div_nonneg; lra.
+  - apply Qle_trans with (maxhap t); [exact Hhi|].
+    assert (t_p t - maxhap t == (n01 t + 2 * n02 t + n12 t) / (2 * t_n t)) as E
+      by (unfold t_p, maxhap, num_alt; field; exact Hn0).
+    assert (0 <= t_p t - maxhap t) by (rewrite E; apply div_nonneg; lra). lra.
+  - apply Qle_trans with (maxhap t); [exact Hhi|].
+    assert (t_q t - maxhap t == (n10 t + 2 * n20 t + n21 t) / (2 * t_n t)) as E
+      by (unfold t_q, maxhap, num_alt; field; exact Hn0).
+    assert (0 <= t_q t - maxhap t) by (rewrite E; apply div_nonneg; lra). lra.
+  - assert (1 - t_p t - t_q t + minhap t == (n12 t + n21 t + 2 * n22 t) / (2 * t_n t)) as E
+      by (unfold t_p, t_q, minhap, num_alt, t_n; field; unfold t_n in Hn0; exact Hn0).
+    assert (0 <= 1 - t_p t - t_q t + minhap t) by (rewrite E; apply div_nonneg; lra). lra.
+Qed.
